@@ -19,7 +19,7 @@ func init() {
 		Explanation: "Decides the reset mechanism for pooled transactions, not the values computed later: R1 every field of Transaction is stored on every path of newTransaction (path query per field) with a value that does not derive from the recycled object, WAF-copied settings come from the same-named WAF field, and reference-typed values shared with the WAF are never written through by the functions that receive them; " +
 			"R2 TransactionVariables.All enumerates every field, every field's collection type resets or is a stateless view, Close calls variables.reset() on all paths, and each Reset method empties its storage; R3 the default values are re-seeded outside the first-use branch; " +
 			"R4 Close resets both body buffers on all paths and BodyBuffer.Reset, on every path, zeroes length, resets the memory buffer, closes every handed-out reader and clears the reader list; a closed reader returns EOF before touching the buffer; " +
-			"R5 Eval clears the transformation cache before the rule loop and Close returns the object to the pool exactly once (deferred Put, no other Put/Get sites).",
+			"R5 Eval clears the transformation cache before the rule loop and Close returns the object to the pool exactly once (deferred Put, no other Put/Get sites). R4 also: every field of BodyBuffer that is written while a body is buffered is rewritten on every path of Reset (paths on which it already holds its zero value excepted).",
 		NotDecided: []string{
 			"behaviour after a double Close (the same object is pooled twice)",
 			"correctness of values written after the reset",
@@ -38,6 +38,7 @@ var txReuseFields = map[string]string{
 }
 
 func runC05(c *an.Ctx) {
+	r7BodyBufferFieldsReset(c, "R4")
 	nt := c.Fn("R1", "internal/corazawaf.(*WAF).newTransaction")
 	txT := c.P.LookupType(pkgWAF, "Transaction")
 	wafT := c.P.LookupType(pkgWAF, "WAF")
